@@ -75,6 +75,19 @@ type clockCtl struct {
 	redis    *miniredis.Miniredis
 	short    time.Duration
 	segStart time.Time
+	held     []heldAnswer
+}
+
+// heldAnswer: a list / hash answer as received (got: the very object the backend returned) and a deep copy
+// taken at that moment; compared again after all later operations (Held event).
+type heldAnswer struct {
+	what string
+	got  any
+	snap string
+}
+
+func (c *clockCtl) hold(what string, got any) {
+	c.held = append(c.held, heldAnswer{what: what, got: got, snap: fmt.Sprintf("%#v", got)})
 }
 
 func (c *clockCtl) ttl(class any) time.Duration {
@@ -164,6 +177,7 @@ func runOp(st backend, c *clockCtl, o step) map[string]any {
 			}
 			return errRes(err)
 		}
+		c.hold("GetList", l)
 		out := []any{}
 		for _, x := range l {
 			out = append(out, abst(x))
@@ -198,6 +212,7 @@ func runOp(st backend, c *clockCtl, o step) map[string]any {
 			}
 			return errRes(err)
 		}
+		c.hold("GetAllHash", h)
 		fs := make([]string, 0, len(h))
 		for f := range h {
 			fs = append(fs, f)
@@ -342,6 +357,33 @@ func childRace(m *memory.Storage, beh behaviour) {
 					ints[i], _ = m.IncrBy(k, 1)
 				case "Append":
 					m.AppendToList(k, fmt.Sprintf("m%d", i))
+				case "GetMut":
+					ok := true
+					for j := 0; j < 24; j++ {
+						switch i % 4 {
+						case 0: // lifetime flips between never and long: the entry is rewritten in place
+							if j%2 == 0 {
+								m.SetExpiration(k, time.Hour)
+							} else {
+								m.SetExpiration(k, 0)
+							}
+						case 1:
+							var ttl time.Duration
+							if j%2 == 0 {
+								ttl = time.Hour
+							}
+							m.CompareAndSwap(k, "live", "live", ttl) // the renew-lease pattern
+						case 2:
+							if _, err := m.Get(k); err != nil {
+								ok = false
+							}
+						case 3:
+							if ex, err := m.Exists(k); err != nil || !ex {
+								ok = false
+							}
+						}
+					}
+					bools[i] = ok
 				case "ExpSet":
 					switch i % 4 {
 					case 0:
@@ -377,6 +419,9 @@ func childRace(m *memory.Storage, beh behaviour) {
 			// an expired entry that the sweeper has not removed yet
 			m.Set(k, "old", 150*time.Microsecond)
 			time.Sleep(250 * time.Microsecond)
+		}
+		if beh.Race == "GetMut" {
+			m.Set(k, "live", 0)
 		}
 		key.Store(k)
 		curRound.Store(int64(round))
@@ -531,9 +576,25 @@ func drive(env *fw.Env, b fw.Behaviour) *fw.Trace {
 		}
 		r := runOp(st, c, o)
 		t.Events = append(t.Events, fw.Event{"ev": "Op", "o": o, "res": r, "be": beh.Backend})
+		// a read of the touched key after every mutating step: the generated behaviours are shortest paths of
+		// mutating operations, so without this no answer is ever given before a later mutation (reads are pure in the
+		// reference: judged like any other operation, and held for the Held comparison at the end)
+		if k, ok := o["k"].(string); ok {
+			var rd step
+			switch {
+			case o["op"] == "GetList" || o["op"] == "GetAllHash" || o["op"] == "Get" || o["op"] == "Exists" || o["op"] == "GetExp":
+			case k[0] == 'l':
+				rd = step{"op": "GetList", "k": k}
+			case k[0] == 'h':
+				rd = step{"op": "GetAllHash", "k": k}
+			}
+			if rd != nil {
+				t.Events = append(t.Events, fw.Event{"ev": "Op", "o": rd, "res": runOp(st, c, rd), "be": beh.Backend, "mid": true})
+			}
+		}
 	}
 	for _, o := range probes(beh.Steps) {
-		if beh.Backend == "redis" && o["op"] == "GetExp" && o["k"].(string)[0] != 's' {
+		if beh.Backend == "redis" && o["op"] == "GetExp" && o["k"].(string)[0] != 's' && o["k"].(string)[0] != 'c' {
 			continue
 		}
 		r := runOp(st, c, o)
@@ -541,6 +602,16 @@ func drive(env *fw.Env, b fw.Behaviour) *fw.Trace {
 	}
 	if c.redis == nil && time.Since(c.segStart) > segBudget {
 		return &fw.Trace{Status: fw.Inconclusive, Note: "segment exceeded timing budget"}
+	}
+	// answers given earlier must still be what they were
+	bad := map[string]bool{}
+	for _, h := range c.held {
+		if fmt.Sprintf("%#v", h.got) != h.snap {
+			bad[h.what] = true
+		}
+	}
+	for _, what := range []string{"GetList", "GetAllHash"} {
+		t.Events = append(t.Events, fw.Event{"ev": "Held", "be": beh.Backend, "what": what, "same": !bad[what]})
 	}
 	return t
 }
@@ -679,9 +750,9 @@ func main() {
 			if env.Tier == "thorough" {
 				rounds, reps, budget = 300000, 4, 20000
 			}
-			for _, kind := range []string{"SetNX", "CAS", "IncrBy", "Append", "ExpSet"} {
+			for _, kind := range []string{"SetNX", "CAS", "IncrBy", "Append", "ExpSet", "GetMut"} {
 				n := reps
-				if kind == "ExpSet" {
+				if kind == "ExpSet" || kind == "GetMut" {
 					n = reps * 3 // the window (expiry check under the read lock, eviction under the write lock) is hit in <1% of rounds
 				}
 				for r := 0; r < n; r++ {
